@@ -6,10 +6,13 @@ SPEC = {
         {"name": "writelog", "cmd": "writelog",
          "args": {"quick": ["-cases", "48"], "thorough": ["-cases", "1500"]},
          "search_args": ["-cases", "400"]},
+        {"name": "pblog", "cmd": "writelog",
+         "args": {"quick": ["-mode", "pblog", "-cases", "30"], "thorough": ["-mode", "pblog", "-cases", "600"]}},
     ],
     "trusted_base": [
         "Coq 8.16.1 kernel (coqc; coqchk in the thorough tier); no native_compute",
-        "harness/cmd/writelog (drives the real MKVS tree, both node databases and go/storage/database LocalBackend.Apply/GetDiff on temp directories; records observations as Coq terms); no export hook needed",
+        "verif-tagged go/storage/mkvs/db/pathbadger/export_verif.go (read-only: returns the stored internal write log of a pair and the nodes at the positions it references)",
+        "harness/cmd/writelog (drives the real MKVS tree, both node databases and go/storage/database LocalBackend.Apply/GetDiff on temp directories; records observations as Coq terms); one read-only export hook (pathbadger)",
         "vm_compute evaluation of Verif.WriteLog.Model.run_case on the recorded cases (no extraction)",
         "abstraction: a tree is its contents (sorted key/value list); 'equal contents => equal root' is the trie model's theorem root_depends_only_on_contents (coq/Mkvs), the converse holds up to hash collisions and is stated as an explicit disjunct",
         "for the correspondence the digest is instantiated with the contents themselves (root_of = identity); the theorems hold for every root_of",
@@ -19,7 +22,8 @@ SPEC = {
         "keys are non-empty byte strings (the harness never generates the empty key)",
         "the Go map iteration order of pendingWriteLog is free: logs are compared sorted by key (apply_order_irrelevant justifies it)",
         "an empty write log is not stored by either backend, GetWriteLog answers 'not found' for it; the harness treats that as the empty log",
-        "the start root of an Apply is stored in the applying database (or is the empty root)",
+        "PathLog.v: which leaves are embedded in internal nodes is taken from the contents (a key is embedded iff another key extends it) and which leaves stay clean from the batch (only same-value inserts); both are validated against the stored internal logs (stream pblog), the positions chosen by the database are validated, not predicted",
+        "pairs whose end root was committed twice in one version are judged by the oracle only (served => correct); the database stores nothing for the second commit",
         "which roots a database serves a log for is ported, not derived (Model.serve): badger serves every stored root; pathbadger refuses pending roots whose batch did not get sequence number 0 of its (version, type) (writelog.go:109-113); roots that lost finalization are refused; the theorem is 'served => correct'",
     ],
 }
